@@ -353,9 +353,10 @@ func (f *MemFile) ReadDir(n int) (entries []fs.DirEntry, err error) {
 		return nil, io.EOF
 	}
 
-	end := start + n
-	if end > len(f.dirEntries) {
-		end = len(f.dirEntries)
+	// n can be as large as math.MaxInt : it is compared with what is left before being added to start.
+	end := len(f.dirEntries)
+	if n < end-start {
+		end = start + n
 	}
 
 	f.dirIndex = end
@@ -430,9 +431,10 @@ func (f *MemFile) Readdirnames(n int) (names []string, err error) {
 		return nil, io.EOF
 	}
 
-	end := start + n
-	if end > len(f.dirNames) {
-		end = len(f.dirNames)
+	// n can be as large as math.MaxInt : it is compared with what is left before being added to start.
+	end := len(f.dirNames)
+	if n < end-start {
+		end = start + n
 	}
 
 	f.dirIndex = end
